@@ -248,6 +248,10 @@ def password_grid(tier, rng, trunc):
     return grid
 
 
+#: near-miss category -> witness class used in failure keys
+CAT_CLASS = {"prefix": "length", "extend": "length", "prepend": "length", "delete": "length", "insert": "length", "case": "case", "unrelated": "unrelated"}
+
+
 def near_misses(pw_bytes, sig, rng):
     """candidate byte strings near pw_bytes, category-interleaved; (category, bytes)"""
     b = pw_bytes
@@ -460,7 +464,7 @@ def _run_case(g, st, name, hasher, cfg, label, pwname, pw, rng, want_near, verif
         ok = identify(hs)
     except Exception as err:  # noqa: BLE001
         ok = f"{type(err).__name__}: {err}"
-    empty = ":empty" if pw in ("", b"") else ""
+    empty = ":empty" if pw in ("", b"") and name in PLAINTEXT else ""  # the stored form is then the empty string
     g.check(ok is True, f"identify:{name}{empty}", f"identify(own hash) gave {ok!r}", wit)
     if name in DISABLED:
         n = 0
@@ -524,7 +528,7 @@ def _run_case(g, st, name, hasher, cfg, label, pwname, pw, rng, want_near, verif
             g.fail(f"near-miss-raises:{name}:{type(err).__name__}", f"verify(near miss) raised {type(err).__name__}: {str(err)[:100]}", dict(wit, near=_show(cand), category=cat))
             continue
         done += 1
-        g.check(r is False, f"near-miss:{name}:{cat}", f"verify(different password) gave {r!r}", dict(wit, near=_show(cand), category=cat))
+        g.check(r is False, f"near-miss:{name}:{CAT_CLASS.get(cat, 'byte')}", f"verify(different password) gave {r!r}", dict(wit, near=_show(cand), category=cat))
     st.near_total += done
     if want_near >= NEAR_MIN and (st.min_near is None or done < st.min_near[0]):  # (reduced cases not counted)
         st.min_near = (done, name, label, pwname)
@@ -551,7 +555,7 @@ def build(tier, rng):
     import passlib.utils.handlers as uh
 
     quick = tier == "quick"
-    want_near = NEAR_MIN if quick else 48
+    want_near = NEAR_MIN if quick else 40  # base configuration; the other settings / contexts use NEAR_MIN
     skipped = []
     st = Stats()
     t_start = time.time()
@@ -560,7 +564,9 @@ def build(tier, rng):
         "registry-hashers",
         "GenericHandler.hash/verify",
         "every unwrapped name in registry.list_crypt_handlers() with a backend on this host x passwords {empty, 1 byte, ASCII, 2/3/4-byte UTF-8, non-UTF-8 bytes, T-1/T/T+1, 255, 4096}"
-        " x settings {min cost, min+1, default cost, salt size min/max, every ident/variant/version} x context {user, realm, encoding}: str & ASCII, identify, verify True (text and bytes), False for >= 20 near misses outside the documented equivalences",
+        " x settings {min cost, min+1, default cost, salt size min/max, every ident/variant/version} x context {user, realm, encoding}: str & ASCII, identify, verify True (text and bytes), False for >= 20 near misses outside the documented equivalences."
+        " Base configuration x whole password grid; every other setting/context x 2 (quick) / 6-9 (thorough) passwords; default cost: 1 round trip + 1 near miss (quick), 2 passwords x 10 near misses (thorough);"
+        " quick tier, pure-Python slow digests (c01.SLOW): 6 near misses for passwords > 1000 bytes",
     )
     g_wrap = Group(
         "prefix-wrappers",
@@ -616,12 +622,11 @@ def build(tier, rng):
             for xi, ctx in enumerate(contexts):
                 if ci and xi:
                     continue  # settings and context are varied one at a time around the base
-                pws = grid if (ci == 0 and xi == 0) or not quick else few
-                near = want_near
+                pws, near = (grid, want_near) if (ci == 0 and xi == 0) else (few, NEAR_MIN)
                 if default_cost:
-                    # the cost itself is not under test: one round trip (quick) / a short near-miss list (thorough)
-                    pws = [p for p in grid if p[0] == "ascii"] if quick else few
-                    near = 1 if quick else NEAR_MIN
+                    # the cost itself is not under test: one round trip (quick) / two passwords, 10 near misses (thorough)
+                    pws = [p for p in grid if p[0] == "ascii" or (p[0] == "utf8-3" and not quick)]
+                    near = 1 if quick else 10
                 cfg = dict(ctx)
                 cfg["default_encoding"] = getattr(base, "default_encoding", None)
                 cfg["_light"] = default_cost and quick  # hash, verify, one near miss
@@ -651,27 +656,27 @@ def build(tier, rng):
 
         lib += [("SHA256Hasher", SHA256Hasher, [("rounds=1000", {"rounds": 1000}, False), ("rounds=1001", {"rounds": 1001}, False), ("rounds=5000", {"rounds": 5000}, False), ("default", {}, True)], eq_exact, None)]
         lib += [("SHA512Hasher", SHA512Hasher, [("rounds=1000", {"rounds": 1000}, False), ("rounds=1001", {"rounds": 1001}, False), ("rounds=5000", {"rounds": 5000}, False), ("default", {}, True)], eq_exact, None)]
-    except ImportError as err:
+    except Exception as err:  # noqa: BLE001 (missing or broken optional dependency)
         skipped.append(f"libpass.hashers.sha_crypt: {err}")
     try:
         from libpass.hashers.pbkdf2 import PBKDF2SHA256Handler, PBKDF2SHA512Handler
 
         for nm, cls in (("PBKDF2SHA256Handler", PBKDF2SHA256Handler), ("PBKDF2SHA512Handler", PBKDF2SHA512Handler)):
             lib.append((nm, cls, [("rounds=1", {"rounds": 1}, False), ("rounds=2", {"rounds": 2}, False), ("salt_entropy_bits=8", {"rounds": 1, "salt_entropy_bits": 8}, False), ("salt_entropy_bits=512", {"rounds": 1, "salt_entropy_bits": 512}, False), ("default", {}, True)], eq_exact, None))
-    except ImportError as err:
+    except Exception as err:  # noqa: BLE001 (missing or broken optional dependency)
         skipped.append(f"libpass.hashers.pbkdf2: {err}")
     try:
         from libpass.hashers.bcrypt import BcryptHasher, BcryptSHA256Hasher
 
         lib.append(("BcryptHasher", BcryptHasher, [("rounds=4", {"rounds": 4}, False), ("rounds=5", {"rounds": 5}, False), ("rounds=4,2a", {"rounds": 4, "prefix": "2a"}, False), ("rounds=4,2b", {"rounds": 4, "prefix": "2b"}, False), ("default", {}, True)], eq_bcrypt_libpass, 72))
         lib.append(("BcryptSHA256Hasher", BcryptSHA256Hasher, [("rounds=4", {"rounds": 4}, False), ("rounds=5", {"rounds": 5}, False), ("default", {}, True)], eq_exact, None))
-    except ImportError as err:
+    except Exception as err:  # noqa: BLE001 (missing or broken optional dependency)
         skipped.append(f"libpass.hashers.bcrypt: {err}")
     try:
         from libpass.hashers.argon2 import Argon2Hasher
 
         lib.append(("Argon2Hasher", Argon2Hasher, [(f"t=1,m=8,type={t}", {"time_cost": 1, "memory_cost": 8, "parallelism": 1, "type": t}, False) for t in ("id", "i", "d")] + [("default", {}, True)], eq_exact, None))
-    except ImportError as err:
+    except Exception as err:  # noqa: BLE001 (missing or broken optional dependency)
         skipped.append(f"libpass.hashers.argon2.Argon2Hasher: {err}")
 
     for nm, cls, cfgs, canon, sig in lib:
@@ -683,11 +688,10 @@ def build(tier, rng):
             except (ValueError, TypeError) as err:
                 st.bad_settings.append(f"libpass {nm} {label}: constructor refused ({type(err).__name__}: {err})")
                 continue
-            pws = grid if ci == 0 or not quick else few
-            near = want_near
+            pws, near = (grid, want_near) if ci == 0 else (few, NEAR_MIN)
             if default_cost:
-                pws = [p for p in grid if p[0] == "ascii"] if quick else few
-                near = 1 if quick else NEAR_MIN
+                pws = [p for p in grid if p[0] == "ascii" or (p[0] == "utf8-3" and not quick)]
+                near = 1 if quick else 10
 
             def hash_(s, obj=obj, nm=nm):
                 try:
